@@ -17,8 +17,8 @@ func init() {
 	Register(&Rule{
 		ID:    "R-SMALL",
 		Doc:   "single-site obligations: thrift Reset recomputes protocol flags like the constructor; the seen-bit of a decoded field is set on every path that consumes it; keyset lookups are confirmed by a length comparison; HTML key fragments are always computed; slice growth is geometric; every callback parameter of the skippers is used; trailing-data tests dominate success returns; varint overflow constants; sort-before-delta; number-kind precedence; identities of base64/time/endianness callees",
-		Props: []string{"C01", "C02", "C03", "C04", "C07", "C08", "C12", "C13", "C14"},
-		Min:   map[string]int{"C01": 2, "C02": 3, "C03": 1, "C04": 4, "C07": 3, "C08": 3, "C12": 2, "C13": 1, "C14": 2},
+		Props: []string{"C01", "C02", "C03", "C04", "C07", "C08", "C12", "C13", "C14", "C16", "C19"},
+		Min:   map[string]int{"C01": 2, "C02": 3, "C03": 1, "C04": 4, "C07": 3, "C08": 3, "C12": 2, "C13": 3, "C14": 3, "C16": 1, "C19": 2},
 		Run:   runSmall,
 	})
 }
@@ -37,6 +37,9 @@ func runSmall(c *core.Ctx) []core.Obligation {
 	smallNumberPrecedence(c, b)
 	smallIdentities(c, b)
 	smallImplicitNumber(c, b)
+	smallDeltaBase(c, b)
+	smallBitOrZeroMask(c, b)
+	smallRawVarintByte(c, b)
 	return b.out
 }
 
@@ -172,6 +175,20 @@ func smallKeysetLength(c *core.Ctx, b *ob) {
 		return
 	}
 	k := lookup.Common().Args[1]
+	// the lookup is attempted for every key length a keyset entry can have (1..16 bytes): a guard
+	// that excludes some of them silently drops the exact match for those names
+	{
+		lo, hi, _ := lenInterval(k, lookup.Block())
+		key2 := "keyset-not-bypassed"
+		switch {
+		case hi != nil && hi.Int64() < 16:
+			b.addP([]string{"C02", "C14"}, core.Violation, key2, c.InstrPos(lookup), fmt.Sprintf("keyset.Lookup is only reached for keys of at most %d bytes, but the keyset holds names of up to 16 bytes: a longer name is never matched exactly and, with DontMatchCaseInsensitiveStructFields, the member is silently dropped", hi.Int64()))
+		case lo != nil && lo.Int64() > 1:
+			b.addP([]string{"C02", "C14"}, core.Violation, key2, c.InstrPos(lookup), fmt.Sprintf("keyset.Lookup is only reached for keys of at least %d bytes: shorter names are never matched exactly", lo.Int64()))
+		default:
+			b.addP([]string{"C02", "C14"}, core.Discharged, key2, c.InstrPos(lookup), "no guard excludes a key length in 1..16 from the keyset lookup")
+		}
+	}
 	// every field address computed from the lookup result must be dominated by a comparison of len(name) with len(k)
 	n, bad := 0, ""
 	for _, blk := range fn.Blocks {
@@ -701,5 +718,175 @@ func smallImplicitNumber(c *core.Ctx, b *ob) {
 		b.addP(props, core.Violation, key, bad, "the implicit field number is computed from the reflect field index, which also counts unexported fields: every exported field declared after an unexported one gets a different number than before (and than the reader of previously written data expects)")
 	default:
 		b.addP(props, core.Discharged, key, c.FuncPos(fn), "structField.number comes from the exported-field counter or the tag, never from the reflect index")
+	}
+}
+
+// S13 — thrift compact field headers: the base of the id delta is the absolute id of the field
+// handled last, updated on every iteration (never the delta that was just written, never left
+// unchanged by a long-form header).
+func smallDeltaBase(c *core.Ctx, b *ob) {
+	props := []string{"C13", "C04"}
+	phiLeaves := func(v ssa.Value) []ssa.Value {
+		var out []ssa.Value
+		seen := map[ssa.Value]bool{}
+		var walk func(ssa.Value)
+		walk = func(v ssa.Value) {
+			if seen[v] {
+				return
+			}
+			seen[v] = true
+			if phi, ok := v.(*ssa.Phi); ok {
+				for _, e := range phi.Edges {
+					walk(e)
+				}
+				return
+			}
+			out = append(out, v)
+		}
+		walk(v)
+		return out
+	}
+	for _, spec := range []struct {
+		fn, key string
+		op      token.Token
+		leaf    string
+		why     string
+	}{
+		{"thrift.(*structEncoder).encode", "delta-base:writer", token.SUB, "structEncoderField.id", "the delta written for a field is its id minus the id of the field written before it; the base must be that absolute id (f.id), not the Field value whose ID was just overwritten with the delta"},
+		{"thrift.readStruct", "delta-base:reader", token.ADD, "Field.ID", "a short-form header carries the id relative to the previous field's id, whichever form that previous header used: the base must be reassigned from the resolved id on every iteration"},
+	} {
+		fn := c.Lookup(spec.fn)
+		if fn == nil {
+			b.addP(props, core.Undecided, spec.key, "-", spec.fn+" not found")
+			continue
+		}
+		var found *ssa.BinOp
+		var base ssa.Value
+		for _, blk := range fn.Blocks {
+			for _, in := range blk.Instrs {
+				bo, ok := in.(*ssa.BinOp)
+				if !ok || bo.Op != spec.op {
+					continue
+				}
+				for _, pair := range [][2]ssa.Value{{bo.X, bo.Y}, {bo.Y, bo.X}} {
+					if texpr(pair[0], 0) == "Field.ID" {
+						if _, isPhi := pair[1].(*ssa.Phi); isPhi {
+							found, base = bo, pair[1]
+						}
+					}
+				}
+			}
+		}
+		if found == nil {
+			b.addP(props, core.Undecided, spec.key, c.FuncPos(fn), "no id-delta arithmetic (Field.ID "+spec.op.String()+" loop-carried base) found")
+			continue
+		}
+		bad := ""
+		for _, l := range phiLeaves(base) {
+			if k, ok := constInt(l); ok && k == 0 {
+				continue
+			}
+			if texpr(l, 0) == spec.leaf {
+				if _, isLoad := l.(*ssa.UnOp); isLoad {
+					continue
+				}
+			}
+			bad = texpr(l, 0)
+		}
+		if bad != "" {
+			b.addP(props, core.Violation, spec.key, c.InstrPos(found), fmt.Sprintf("%s: the delta base can be %s. %s", spec.fn, bad, spec.why))
+		} else {
+			b.addP(props, core.Discharged, spec.key, c.InstrPos(found), "the delta base is 0 or "+spec.leaf+" on every path")
+		}
+	}
+}
+
+// S14 — proto BitOr rule: a nil Rewriter means "remove the field" to the enclosing message
+// rewriter, so BitOr.Rewriter may return nil only together with an error; a zero mask must still
+// produce a rewriter (x|0 == x keeps the field).
+func smallBitOrZeroMask(c *core.Ctx, b *ob) {
+	props := []string{"C19"}
+	key := "bitor:nil-only-with-error"
+	fn := c.Lookup("proto.(BitOr).Rewriter")
+	if fn == nil {
+		b.addP(props, core.Undecided, key, "-", "proto.(BitOr[T]).Rewriter not found")
+		return
+	}
+	n, bad := 0, ""
+	for _, r := range returnsOf(fn) {
+		if len(r.Results) != 2 {
+			continue
+		}
+		n++
+		if !isNilConst(r.Results[0]) {
+			continue
+		}
+		// dominated by the non-nil side of an error test
+		if !onFailingPath(r.Block()) {
+			bad = c.InstrPos(r)
+		}
+	}
+	switch {
+	case n == 0:
+		b.addP(props, core.Undecided, key, c.FuncPos(fn), "no return found")
+	case bad != "":
+		b.addP(props, core.Violation, key, bad, "BitOr.Rewriter returns a nil Rewriter on a path where the error may be nil (a zero mask): the enclosing message rewriter installs an empty rewriter for the field, which deletes it instead of leaving x|0 == x")
+	default:
+		b.addP(props, core.Discharged, key, c.FuncPos(fn), "a nil Rewriter is returned only on the error path")
+	}
+}
+
+// S15 — proto: a length or tag written as one raw byte (outside the varint encoder) is only a
+// valid varint below 0x80.
+func smallRawVarintByte(c *core.Ctx, b *ob) {
+	props := []string{"C19", "C03", "C16"}
+	n := 0
+	for _, fn := range c.RepoFunctions() {
+		name := shortName(fn)
+		if fn.Blocks == nil || !strings.HasPrefix(name, "proto.") || strings.HasPrefix(name, "proto.encodeVarint") || strings.HasPrefix(name, "proto.encodeZigZag") {
+			continue
+		}
+		k := 0
+		for _, blk := range fn.Blocks {
+			for _, in := range blk.Instrs {
+				st, ok := in.(*ssa.Store)
+				if !ok {
+					continue
+				}
+				if _, isElem := st.Addr.(*ssa.IndexAddr); !isElem {
+					continue
+				}
+				cv, ok := st.Val.(*ssa.Convert)
+				if !ok {
+					continue
+				}
+				if bt, ok := cv.Type().Underlying().(*types.Basic); !ok || bt.Kind() != types.Uint8 {
+					continue
+				}
+				src, ok := cv.X.Type().Underlying().(*types.Basic)
+				if !ok || src.Info()&types.IsInteger == 0 || src.Kind() == types.Uint8 {
+					continue
+				}
+				if _, isK := cv.X.(*ssa.Const); isK {
+					continue
+				}
+				k++
+				n++
+				key := fmt.Sprintf("raw-varint-byte:%s#%d", name, k)
+				_, hi := rangeFacts(cv.X, blk)
+				if hi != nil && hi.Int64() <= 127 {
+					b.addP(props, core.Discharged, key, c.InstrPos(st), "value proven < 0x80 where it is written as one byte")
+				} else {
+					have := "unbounded"
+					if hi != nil {
+						have = "<= " + hi.String()
+					}
+					b.addP(props, core.Violation, key, c.InstrPos(st), fmt.Sprintf("%s writes an integer (%s) as a single raw byte of the message: only values below 0x80 are one-byte varints, 0x80 itself reads back as a continuation byte and the message no longer decodes", name, have))
+				}
+			}
+		}
+	}
+	if n == 0 {
+		b.addP(props, core.Discharged, "raw-varint-byte:none", "proto", "no integer is written as a raw byte outside encodeVarint: every length and tag goes through the varint encoder")
 	}
 }
